@@ -312,7 +312,7 @@ def v_pop(I, callee, args, st, n, fidx):
     if is_obj(a, "mode_stack"):
         if st.stack:
             m = st.stack.pop()
-            I.emit(st, "pop", n, mode=m, known=True, depth=st.base + len(st.stack))
+            I.emit(st, "pop", n, mode=m, known=True, depth=st.base + len(st.stack), pos=st.cursors["main"].pos)
             return val(some(m), st)
         idx = st.base - 1
         m = I.stack_slot(st, idx)
@@ -506,12 +506,8 @@ def opt_cases(I, a, st, fidx):
     inc, exc = st.vfacts.get(key, (None, frozenset()))
     payload = Term("Some.0", (a,), None)
     if isinstance(a, Term) and a.op == "optmark":
-        # loop-carried Option<mark>: when Some, it is a token-start mark taken at an earlier position
-        p = a.args[0].v
-        payload = Tup([
-            Enum("text::ByteOffset", [Term("bin:Sub", (Term("source_len", (), "u32"), Term("remaining_len", (Const("str", "main"), Const("int", p)), "u32")), "u32")]),
-            Enum("text::CharOffset", [Term("char_offset", (Const("str", "main"), Const("int", p)), "u32")]),
-            Term("last_line", (Const("int", -p),), "LineIdx")])
+        from .lea import optmark_payload
+        payload = optmark_payload(a)
     res = []
     can_some = (inc is None or "Some" in inc or "Ok" in inc) and "Some" not in exc
     can_none = (inc is None or "None" in inc or "Err" in inc) and "None" not in exc
@@ -855,7 +851,11 @@ def phf_get(I, callee, args, st, n, fidx):
 
 @prim("core::str::len", "std::string::String::len")
 def s_len(I, callee, args, st, n, fidx):
-    return val(Term("len", (args[0],), "usize"), st)
+    a = args[0]
+    if isinstance(a, Term) and a.op == "as_str" and len(a.args) == 2:
+        if eof_known(st, a.args[0].v, a.args[1].v) is True:
+            return val(Const("int", 0), st)    # nothing left at end of input
+    return val(Term("len", (a,), "usize"), st)
 
 
 def snap_of(v):
